@@ -258,3 +258,70 @@ func VH_C14_LeaderAssignment(kind int) {
 	}
 	vhReach("c14-leader-assignment")
 }
+
+// Listings as brokers may return them: partition ids sparse and out of order, the partitions of two topics
+// interleaved. Every member subscribes to both topics. kind 0 Range, 1 RoundRobin, 2 RackAffinity (no racks).
+func VH_C14_SparseListing(kind, M int) {
+	members, _ := vhMembers(M, 2, false)
+	for i := range members {
+		members[i].Topics = []string{"A", "B"}
+	}
+	listing := []Partition{{Topic: "A", ID: 6}, {Topic: "B", ID: 1}, {Topic: "A", ID: 0}, {Topic: "B", ID: 3}, {Topic: "A", ID: 4}, {Topic: "A", ID: 2}, {Topic: "B", ID: 9}}
+	perTopic := map[string][]int{"A": {6, 0, 4, 2}, "B": {1, 3, 9}} // in listing order
+	var bal GroupBalancer
+	what := ""
+	switch kind {
+	case 0:
+		bal, what = RangeGroupBalancer{}, "sparse-range"
+	case 1:
+		bal, what = RoundRobinGroupBalancer{}, "sparse-roundrobin"
+	default:
+		vhMapOrderAll(true)
+		bal, what = RackAffinityGroupBalancer{}, "sparse-rackaffinity"
+	}
+	asg := bal.AssignGroups(members, listing)
+	for _, topic := range []string{"A", "B"} {
+		ids := perTopic[topic]
+		minLoad, maxLoad := 1<<30, -1
+		for _, id := range ids {
+			owners := 0
+			for i := range members {
+				if vhContains(asg[members[i].ID][topic], id) {
+					owners++
+				}
+			}
+			vhAssert(owners == 1, what+"-every-listed-partition-assigned-exactly-once")
+		}
+		for i := range members {
+			l := asg[members[i].ID][topic]
+			for _, e := range l {
+				vhAssert(vhContains(ids, e), what+"-only-listed-partitions-are-handed-out")
+			}
+			if len(l) < minLoad {
+				minLoad = len(l)
+			}
+			if len(l) > maxLoad {
+				maxLoad = len(l)
+			}
+			// shape relative to the listing order
+			pos := func(id int) int {
+				for k, x := range ids {
+					if x == id {
+						return k
+					}
+				}
+				return -1
+			}
+			for x := 1; x < len(l); x++ {
+				switch kind {
+				case 0:
+					vhAssert(pos(l[x]) == pos(l[x-1])+1, "sparse-range-contiguous-run-of-the-listing")
+				case 1:
+					vhAssert(pos(l[x]) == pos(l[x-1])+M, "sparse-roundrobin-every-kth-of-the-listing")
+				}
+			}
+		}
+		vhAssert(maxLoad-minLoad <= 1, what+"-loads-differ-by-at-most-one")
+	}
+	vhReach("c14-sparse-listing")
+}
